@@ -12,7 +12,7 @@ from simverif.core.rng import stream
 
 ID = 'C12'
 LEVEL = 'exploration'
-TIERS = {'quick': {'runs': 132}, 'thorough': {'seconds': 900}}
+TIERS = {'quick': {'runs': 240}, 'thorough': {'seconds': 900}}
 DET_PAIRS_PER_SLOT = 1
 MAX_BUDGET_FRACTION = 0.02
 RULE = ("one run = one seeded DHT network of real Nodes on a simulated datagram network. family `hit`: "
